@@ -36,7 +36,11 @@ MANIFEST = dict(
           "chunking (callbacks_of_written_document), every start tag at the line/column of its '<' (derivedPos), hence adapter + machine "
           "yield normalise; html.unescape and str.lower are the only parameters (ParamsOK). Stream written-text: Lean writeText = the Python "
           "writer's plain-mode text, Writable holds, derivedPos = the writer's offsets, recorder = Lean tokenizer = emit on those texts, "
-          "ParamsOK sampled against the real functions."),
+          "ParamsOK sampled against the real functions. script/style: parse_of_written_document_raw / raw_text_element_tokens - WritableRaw "
+          "admits a script/style element with ONE text written verbatim whose every '</' (also one at its end) is followed by neither "
+          "whitespace nor the first letter of the name in either case (rawTextOK): the tokenizer's CDATA mode gives starttag, ONE data, endtag, "
+          "the tree has one Script/Stylesheet string. Stream written-raw: Lean rawTextOK/WritableRaw/writeText = the Python side, and where "
+          "WritableRaw holds recorder = emit, real parse = normalise = intended fold, one string of the container's class; where not, counted."),
     design="7/C04",
     note=("CPython's tokenizer is outside the repository: it is modelled in Lean and tied to the real one by exact equality of the callback "
           "streams on every text of the run (html.unescape, str.lower and the HTML5 entity table are parameters answered by the real "
